@@ -43,7 +43,7 @@ class Prop(BaseProp):
     ]
     rule = ("stream c07: chunk lists (1..40 chunks; lengths covering every residue mod 4, 1 byte, zeros, text, f32/f16-like arrays, random) x schemes none/lz4/bg4/auto; "
             "exact file bytes compared with the model, every requested chunk range (all ranges for small lists) read back through CasObject and through the sync/async/stream "
-            "decoders; stream bg4: split/regroup variants on lengths 0..N (exhaustive in thorough); non-trivial = at least 2 chunks; distinct by sha256 of the case text")
+            "decoders; stream c07big (oracle only): xorbs at the size limits (64 MiB in 512 maximum-size chunks, raw and compressed) serialized, reloaded and read back; stream bg4: split/regroup variants on lengths 0..N (exhaustive in thorough); non-trivial = at least 2 chunks; distinct by sha256 of the case text")
 
     def streams(self, rng, tier):
         big = tier == "thorough"
@@ -79,7 +79,17 @@ class Prop(BaseProp):
         lens = range(0, 70) if not big else range(0, 4100)
         for ln in lens:
             bcases.append({"id": "g%d" % ln, "text": hexs(bytes(rng.getrandbits(8) for _ in range(ln))), "meta": {"n": 2 if ln > 4 else 1, "scheme": "bg4raw"}})
-        return [{"name": "c07", "cases": cases, "prep": "c07prep", "timeout": 1500 if not big else 3000}, {"name": "bg4", "cases": bcases}]
+        # xorbs at the size limits (the data is generated in the harness from a seed; oracle only): 64 MiB of incompressible data in
+        # maximum-size chunks stored raw (the physical offsets exceed 64 MiB by the chunk headers), the same compressible, and
+        # many chunks just below the limit
+        gcases = [{"id": "g0", "text": "none 512 131072 %d r" % rng.randrange(1, 1 << 30), "meta": {"n": 512, "scheme": "none"}},
+                  {"id": "g1", "text": "auto 512 131072 %d t" % rng.randrange(1, 1 << 30), "meta": {"n": 512, "scheme": "auto"}},
+                  {"id": "g2", "text": "lz4 1023 65600 %d r" % rng.randrange(1, 1 << 30), "meta": {"n": 1023, "scheme": "lz4"}}]
+        if big:
+            gcases += [{"id": "g3", "text": "bg4 512 131072 %d r" % rng.randrange(1, 1 << 30), "meta": {"n": 512, "scheme": "bg4"}},
+                       {"id": "g4", "text": "none 8192 8192 %d r" % rng.randrange(1, 1 << 30), "meta": {"n": 8192, "scheme": "none"}}]
+        return [{"name": "c07", "cases": cases, "prep": "c07prep", "timeout": 1500 if not big else 3000}, {"name": "bg4", "cases": bcases},
+                {"name": "c07big", "cases": gcases, "model": False}]
 
     def nontrivial(self, stream, case, io):
         if case["meta"]["n"] >= 2:
